@@ -25,6 +25,8 @@ def add(prop, *vs):
 
 # ---------------------------------------------------------------- C02
 add("C02",
+    V("period-time-handler-narrowed", "C02", [(PARSER, "                                meridian_index += 1\n                except Exception:\n                    pass", "                                meridian_index += 1\n                except ValueError:\n                    pass")], "fire", "C02.R1",
+      note="'13.' as the last token: self.tokens[original_index + 1] raises IndexError"),
     V("century-choice-before-awareness-alignment", "C02", [(PARSER, "        if self._token_year and len(self._token_year[0]) == 2:\n            if self.now < dateobj:\n                if \"past\" in self.settings.PREFER_DATES_FROM:\n                    dateobj = dateobj.replace(year=dateobj.year - 100)\n            else:\n                if \"future\" in self.settings.PREFER_DATES_FROM:\n                    dateobj = dateobj.replace(year=dateobj.year + 100)\n\n", ""), (PARSER, "        # NOTE: If this assert fires, self.now needs to be made offset-aware in a similar\n", "        if self._token_year and len(self._token_year[0]) == 2:\n            if self.now < dateobj:\n                if \"past\" in self.settings.PREFER_DATES_FROM:\n                    dateobj = dateobj.replace(year=dateobj.year - 100)\n            else:\n                if \"future\" in self.settings.PREFER_DATES_FROM:\n                    dateobj = dateobj.replace(year=dateobj.year + 100)\n\n        # NOTE: If this assert fires, self.now needs to be made offset-aware in a similar\n")], "fire", "C02.R1",
       note="seeded change C17-2: a timezone-carrying earlier hit makes the chained relative base aware; a later two-digit year is compared while still naive"),
     V("awareness-alignment-dropped", "C02", [(PARSER, "        if self.now.tzinfo is not None and dateobj.tzinfo is None:\n            dateobj = pytz.utc.localize(dateobj)\n", "")], "fire", "C02.R1"),
@@ -112,6 +114,8 @@ add("C16",
 
 # ---------------------------------------------------------------- C17
 add("C17",
+    V("period-time-handler-narrowed", "C17", [(PARSER, "                                meridian_index += 1\n                except Exception:\n                    pass", "                                meridian_index += 1\n                except ValueError:\n                    pass")], "fire", "C17.R",
+      note="'13.' as the last token: self.tokens[original_index + 1] raises IndexError"),
     V("translated-word-into-original-chunk", "C17", [(LOCALE, "                elif translated_chunk and word_is_tz(original_tokens[i]):\n                    translated_chunk.append(word)\n                    original_chunk.append(original_tokens[i])",
                                                        "                elif translated_chunk and word_is_tz(original_tokens[i]):\n                    translated_chunk.append(word)\n                    original_chunk.append(word)")], "fire", "C17.R5"),
     V("substring-from-translated-item", "C17", [(SEARCH, "                substrings.append(original[i].strip(\" .,:()[]-'\"))", "                substrings.append(item.strip(\" .,:()[]-'\"))")], "fire", "C17.R5"),
